@@ -28,6 +28,7 @@ pub fn gen_schedule(rng: &mut Rng, horizon: u32) -> SchedSpec {
 
 pub fn execute_sched(
     prop_id: &str,
+    qualifier: &str,
     scenario: &Value,
     max_steps: usize,
     cov: &mut Cov,
@@ -65,7 +66,7 @@ pub fn execute_sched(
     cov.nontrivial = log.preemptions > 0;
     let violation = match verdict {
         Verdict::Clean => None,
-        Verdict::Deadlock(m) => Some(Violation::new(format!("{}/deadlock", prop_id), log.steps as usize, m)),
+        Verdict::Deadlock(m) => Some(Violation::new(with_q(classify(prop_id, "", &m), qualifier), log.steps as usize, m)),
         Verdict::StepLimit(m) => Some(Violation::new(format!("{}/no-termination-within-step-bound", prop_id), log.steps as usize, m)),
         Verdict::Panic { loc, msg } => {
             if let Some(rest) = msg.strip_prefix("ORACLE ") {
@@ -74,7 +75,7 @@ pub fn execute_sched(
             } else if msg.starts_with("HARNESS") {
                 Some(Violation::new(format!("HARNESS/{}", msg), 0, msg))
             } else {
-                Some(Violation::new(classify(prop_id, &loc, &msg), log.steps as usize, format!("panic at {}: {}", loc, msg)))
+                Some(Violation::new(with_q(classify(prop_id, &loc, &msg), qualifier), log.steps as usize, format!("panic at {}: {}", loc, msg)))
             }
         }
     };
@@ -87,10 +88,19 @@ pub fn execute_sched(
     rr
 }
 
+fn with_q(base: String, q: &str) -> String {
+    if q.is_empty() {
+        base
+    } else {
+        format!("{}/{}", base, q)
+    }
+}
+
 /// signature of a panic (also used to classify an aborted process from its stderr)
 pub fn classify(prop_id: &str, loc: &str, msg: &str) -> String {
     if msg.starts_with("deadlock!") {
-        return format!("{}/deadlock", prop_id);
+        // the runtime distinguishes a thread blocking on a lock it holds itself from a cycle of blocked tasks
+        return if msg.contains("already holds") { format!("{}/deadlock/self-relock", prop_id) } else { format!("{}/deadlock/blocked-cycle", prop_id) };
     }
     if msg.contains("exceeded max_steps") {
         return format!("{}/no-termination-within-step-bound", prop_id);
